@@ -106,6 +106,13 @@ type endpoint struct {
 	// closed. Protected by the mu mutex.
 	multicastMemberships []multicastMembership
 
+	// resvNetProtos and resvAddr describe the port reservation this endpoint
+	// holds (made by Bind or by the first Connect). Connect may later change
+	// id.LocalAddress and effectiveNetProtos, so Close must not derive the
+	// reservation from them.
+	resvNetProtos []tcpip.NetworkProtocolNumber
+	resvAddr      tcpip.Address
+
 	// effectiveNetProtos contains the network protocols actually in use. In
 	// most cases it will only contain "netProto", but in cases like IPv6
 	// endpoints with v6only set to false, this could include multiple
@@ -180,7 +187,7 @@ func (e *endpoint) Close() {
 		// 释放在协议栈中注册的UDP端
 		e.stack.UnregisterTransportEndpoint(e.regNICID, e.effectiveNetProtos, ProtocolNumber, e.id)
 		// 释放端口占用
-		e.stack.ReleasePort(e.effectiveNetProtos, ProtocolNumber, e.id.LocalAddress, e.id.LocalPort)
+		e.stack.ReleasePort(e.resvNetProtos, ProtocolNumber, e.resvAddr, e.id.LocalPort)
 	}
 
 	for _, mem := range e.multicastMemberships {
@@ -796,10 +803,15 @@ func (e *endpoint) registerWithStack(nicid tcpip.NICID, netProtos []tcpip.Networ
 	}
 
 	err := e.stack.RegisterTransportEndpoint(nicid, netProtos, ProtocolNumber, id, e)
-	if err != nil && reserved {
-		// Only give back what this call reserved: an endpoint that is
-		// already bound keeps its port when a re-connect fails.
-		e.stack.ReleasePort(netProtos, ProtocolNumber, id.LocalAddress, id.LocalPort)
+	if reserved {
+		if err != nil {
+			// Only give back what this call reserved: an endpoint that is
+			// already bound keeps its port when a re-connect fails.
+			e.stack.ReleasePort(netProtos, ProtocolNumber, id.LocalAddress, id.LocalPort)
+		} else {
+			e.resvNetProtos = netProtos
+			e.resvAddr = id.LocalAddress
+		}
 	}
 	return id, err
 }
